@@ -153,6 +153,21 @@ func (v *DataModelView) DrawRelation(
 					Count:        1,
 				}
 			}
+		} else if kind, elem := collectionOf(attrType); elem != nil {
+			appName, path, label, isPrimitive := getNames(elem)
+			s = fmt.Sprintf("+ %s : **%s <%s>**\n", attrName, kind, label)
+			if !isPrimitive && viewParam.Types[appName+"."+path[0]] != nil {
+				targetEntity := v.UniqueVarForAppName(path[0])
+				if _, exists := relationshipMap[encEntity]; !exists {
+					relationshipMap[encEntity] = map[string]RelationshipParam{}
+				}
+				rel, counted := relationshipMap[encEntity][targetEntity]
+				if !counted {
+					rel = RelationshipParam{Entity: targetEntity, Relationship: `0..*`}
+				}
+				rel.Count++
+				relationshipMap[encEntity][targetEntity] = rel
+			}
 		} else {
 			s = fmt.Sprintf("+ %s : %s\n", attrName, strings.ToLower(attrType.GetPrimitive().String()))
 		}
@@ -320,6 +335,22 @@ func (v *DataModelView) DrawEnum(name string, entity *sysl.Type_Enum) {
 		v.StringBuilder.WriteString(fmt.Sprintf("%s\n", valToName[val]))
 	}
 	v.StringBuilder.WriteString("}\n")
+}
+
+// collectionOf returns the kind and the element type of a list, set or sequence of primitives or references.
+func collectionOf(t *sysl.Type) (kind string, elem *sysl.Type) {
+	switch {
+	case t.GetList() != nil:
+		kind, elem = "List", t.GetList().GetType()
+	case t.GetSet() != nil:
+		kind, elem = "Set", t.GetSet()
+	case t.GetSequence() != nil:
+		kind, elem = "Sequence", t.GetSequence()
+	}
+	if elem.GetPrimitive() == sysl.Type_NO_Primitive && elem.GetTypeRef().GetRef() == nil {
+		return "", nil
+	}
+	return kind, elem
 }
 
 // getNames returns the names and details needed to represent a type in a diagram.
